@@ -13,6 +13,7 @@ only advance when no other thread is runnable.
 from __future__ import annotations
 
 import concurrent.futures
+import sys
 import threading
 from collections import deque
 
@@ -49,6 +50,7 @@ class Sched:
         self.deadlock = None     # description of the deadlock that ended the run, if any
         self.thread_errors = []
         self.on_deadlock = []    # callables run at the instant a deadlock is detected (before threads are torn down)
+        self.preempt = 0.0       # probability of a scheduling point at each traced line of anyio's thread-crossing code
 
     # -- registration -------------------------------------------------------------------------
     def _new(self, name):
@@ -128,10 +130,13 @@ class Sched:
     def thread_begin(self, rec):
         self.by_ident[threading.get_ident()] = rec
         rec.sem.acquire()
+        if self.preempt:
+            sys.settrace(_global_trace)
         if self.aborted:
             raise BatonAbort()
 
     def thread_end(self):
+        sys.settrace(None)
         rec = self.me()
         if rec is None:
             return
@@ -173,6 +178,47 @@ class Sched:
 
 
 S: Sched | None = None
+
+# ------------------------------------------------------------------------------------------
+# line-level pre-emption (sys.settrace) inside anyio's code that is shared between threads
+# ------------------------------------------------------------------------------------------
+_TRACE_ALL = ("anyio/from_thread.py", "anyio/to_thread.py")
+_TRACE_ASYNCIO_QUAL = ("WorkerThread.", "AsyncIOBackend.run_sync_in_worker_thread", "AsyncIOBackend.run_async_from_thread",
+                       "AsyncIOBackend.run_sync_from_thread", "AsyncIOBackend.check_cancelled", "_forcibly_shutdown")
+_NO_TRACE_QUAL = ("BlockingPortalProvider",)      # holds a real threading.Lock: parking inside it could block for real
+_trace_cache: dict = {}
+
+
+def _wants_trace(code):
+    fn = code.co_filename.replace("\\", "/")
+    q = code.co_qualname
+    if q.startswith(_NO_TRACE_QUAL):
+        return False
+    if fn.endswith(_TRACE_ALL):
+        return True
+    if fn.endswith("anyio/_backends/_asyncio.py"):
+        return q.startswith(_TRACE_ASYNCIO_QUAL)
+    return False
+
+
+def _global_trace(frame, event, arg):
+    if event != "call":
+        return None
+    code = frame.f_code
+    t = _trace_cache.get(code)
+    if t is None:
+        t = _trace_cache[code] = _wants_trace(code)
+    return _local_trace if t else None
+
+
+def _local_trace(frame, event, arg):
+    if event == "line":
+        s = S
+        if s is not None and s.preempt and not s.aborted and s.cur is s.by_ident.get(threading.get_ident()):
+            if s.rng.random() < s.preempt:
+                s.stats["line_preempt_point"] += 1
+                s.yield_point("line")
+    return _local_trace
 
 
 def active():
@@ -312,6 +358,16 @@ def install():
     import anyio._backends._asyncio as A
     import anyio.from_thread as FT
 
+    import logging
+
+    class _Count(logging.Handler):
+        # concurrent.futures logs (and swallows) exceptions raised by done-callbacks; count them instead of printing
+        def emit(self, record):
+            if S is not None:
+                S.stats["future_callback_exception_logged"] += 1
+    lg = logging.getLogger("concurrent.futures")
+    lg.addHandler(_Count())
+    lg.propagate = False
     concurrent.futures.Future.result = _result
     concurrent.futures.Future.exception = _exception
     FT.Thread = SimThread
@@ -360,12 +416,15 @@ def _excepthook(args):
 _orig_excepthook = threading.excepthook
 
 
-def begin(rng, stats, main_name="main"):
+def begin(rng, stats, main_name="main", preempt=0.0):
     global S
     install()
     threading.excepthook = _excepthook
     S = Sched(rng, stats)
+    S.preempt = preempt
     S.register_current(main_name)
+    if preempt:
+        sys.settrace(_global_trace)
     return S
 
 
@@ -375,6 +434,7 @@ def finish(wait=True):
     sched = S
     if sched is None:
         return
+    sys.settrace(None)
     try:
         if wait and not sched.aborted:
             me = sched.me()
